@@ -475,8 +475,8 @@ theorem expandConj_fr_toks {env : Env} {v : Verb} {tb : Table} {l : List Pair}
           (by rw [idx6_pe6 hi]; exact hc)
     · -- participle: four cells
       simp only [tenseRow, hlen, fourBranch, Nat.reduceEqDiff, ↓reduceIte] at ha
-      by_cases hintr : v.pat = some ["intr".toList]
-      · simp only [hintr, if_true] at ha
+      by_cases hintr : v.pat = some ["intr".toList] ∧ v.aux.getD "av".toList = "av".toList
+      · simp only [hintr, and_self, if_true] at ha
         cases hc0 : cells[0]? with
         | none => simp [hc0] at ha
         | some o0 =>
@@ -507,7 +507,7 @@ theorem expandConj_fr_toks {env : Env} {v : Verb} {tb : Table} {l : List Pair}
             rw [fr_conjugate_simple h { t := .pp, g := if fem then .f else .m, n := if plu then .p else .s } rfl]
             have := fr_pp_cell (env := env.fr) h hrow .p3 (if plu then Num.p else Num.s) (if fem then Gender.f else Gender.m)
               (c := c) (by rw [ppGrid_idx hg]; exact hci)
-              (by rintro ⟨_, h2, _⟩; exact hintr h2)
+              (by rintro ⟨_, h2, h3⟩; exact hintr ⟨h2, h3⟩)
             simpa [cellToks] using this
     · -- present participle: a string or null
       rcases hx with ⟨x, rfl⟩ | rfl
@@ -638,11 +638,13 @@ theorem ppGrid_has {i : Nat} (h : i < 4) : ∃ fem plu, (i, fem, plu) ∈ ppGrid
   · exact ⟨true, true, by simp [ppGrid]⟩
 
 /-- one row of a table whose rows are strings, six-cell lists, or (participle) four-cell lists: every non-null
-    cell is listed, except cells 1–3 of a four-cell row when the French lexicon says `pat == ["intr"]` -/
+    cell is listed, except cells 1–3 of a four-cell row when the French lexicon says `pat == ["intr"]` and the
+    auxiliary is avoir -/
 theorem tenseRow_complete {lang : Decl.Lang} {lemma radical t : Str} {v : Verb} {row : Row} {a : List Pair}
     (hshape : (∃ x, row = .str x) ∨ row = .null ∨ ∃ l, row = .list l ∧ (l.length = 6 ∨ l.length = 4))
     (ha : tenseRow lang lemma radical (some v) t row = .ok a) {i : Nat} {c : Str} (hic : (i, c) ∈ icells row)
-    (hx : (∃ l, row = .list l ∧ l.length = 4) → v.pat = some ["intr".toList] → i = 0) :
+    (hx : (∃ l, row = .list l ∧ l.length = 4) → v.pat = some ["intr".toList] →
+      v.aux.getD "av".toList = "av".toList → i = 0) :
     ∃ e, (radical ++ c, e) ∈ a := by
   rcases hshape with ⟨x, rfl⟩ | rfl | ⟨l, rfl, hlen⟩
   · simp only [icells, List.mem_singleton, Prod.mk.injEq] at hic
@@ -661,10 +663,10 @@ theorem tenseRow_complete {lang : Decl.Lang} {lemma radical t : Str} {v : Verb} 
       subst ha
       exact ⟨_, sixLoop_has (by omega) hc⟩
     · simp only [tenseRow, h4, fourBranch, Nat.reduceEqDiff, ↓reduceIte] at ha
-      by_cases hintr : v.pat = some ["intr".toList]
-      · have hi0 := hx ⟨l, rfl, h4⟩ hintr
+      by_cases hintr : v.pat = some ["intr".toList] ∧ v.aux.getD "av".toList = "av".toList
+      · have hi0 := hx ⟨l, rfl, h4⟩ hintr.1 hintr.2
         subst hi0
-        simp only [hintr, if_true, hc, Except.ok.injEq] at ha
+        simp only [hintr, and_self, if_true, hc, Except.ok.injEq] at ha
         subst ha
         exact ⟨_, List.mem_singleton.mpr rfl⟩
       · simp only [hintr, if_false, Except.ok.injEq] at ha
